@@ -46,7 +46,21 @@ LEAF_OF_TOKEN = ['result is not None', 'result.value == value', 'result.prefix =
                  'result.line == start_pos[0]', 'result.column == start_pos[1]']
 contract('parso.python.parser.Parser.convert_leaf',
          params={'self': 'ref:Parser', 'type': 'ref', 'value': 'str', 'prefix': 'str', 'start_pos': 'pos'},
-         returns='ref:Leaf', requires=['self._pgen_grammar is not None'], ensures=LEAF_OF_TOKEN, props=['C01', 'C03'])
+         returns='ref:Leaf', requires=['self._pgen_grammar is not None'],
+         # ... and the leaf has the kind of the token (C06 "same leaves"): a NAME is a keyword exactly when its spelling is
+         # reserved; literal text of an f-string, strings, numbers, newlines keep their own kind whatever their spelling
+         ensures=LEAF_OF_TOKEN + [
+             'implies(type is NAME, isinstance(result, tree.Keyword) == (value in self._pgen_grammar.reserved_syntax_strings))',
+             'implies(type is NAME and not (value in self._pgen_grammar.reserved_syntax_strings), isinstance(result, tree.Name))',
+             'implies(type is PythonTokenTypes.FSTRING_STRING, isinstance(result, tree.FStringString))',
+             'implies(type is PythonTokenTypes.FSTRING_START, isinstance(result, tree.FStringStart))',
+             'implies(type is PythonTokenTypes.FSTRING_END, isinstance(result, tree.FStringEnd))',
+             'implies(type is PythonTokenTypes.STRING, isinstance(result, tree.String))',
+             'implies(type is PythonTokenTypes.NUMBER, isinstance(result, tree.Number))',
+             'implies(type is PythonTokenTypes.NEWLINE, isinstance(result, tree.Newline))',
+             'implies(type is PythonTokenTypes.ENDMARKER, isinstance(result, tree.EndMarker))',
+             'implies(type is PythonTokenTypes.OP, isinstance(result, tree.Operator))'],
+         props=['C01', 'C03', 'C06'])
 
 # ---- C02 / C01: the engine's stack discipline (safety of _add_token / _pop, one leaf per token)
 class_fields('StackNode', dfa='ref:DFAState', nodes='list:ref:NodeOrLeaf')
